@@ -16,7 +16,7 @@ import jax.numpy as jnp
 from ..core import obligation, REPO, VERIF
 from .. import px, jx, sym
 from ..px import SymBool, NP
-from ..sym import Lt, Eq, Holds, v_mul, v_lt
+from ..sym import Le, Lt, Eq, Holds, v_mul, v_lt
 from ..jxh import Case
 from . import c01
 
@@ -278,7 +278,19 @@ def _examples(kind):
     return jnp.array([0.3, 0.2]), O.Params(jnp.ones(M0), jnp.ones(1), jnp.ones(M2), app, 0.0, None)
 
 
-def make_ws_harness(index, kind, use_default_index=False):
+DOC_RTOL = 1e-5     # scipy.sparse.linalg.cg's default relative tolerance: what the call `cg(Lop, b, M=..., callback=...)` of the source asks for
+
+
+def cg_threshold_sq(kw, bb):
+    """square of scipy's stopping threshold max(rtol |b|, atol) for the keyword arguments of a cg call (`tol` = legacy name of rtol)"""
+    rtol = kw.get('rtol', kw.get('tol', DOC_RTOL))
+    atol = kw.get('atol', 0.0)
+    if isinstance(atol, str) or atol is None:
+        atol = 0.0
+    return NPX.maximum(rtol * rtol * bb, atol * atol), rtol, atol
+
+
+def make_ws_harness(index, kind, use_default_index=False, contract='exact', unit_family=False):
     """WarmStart.warm_start_increment(objective, x, pNew, index) with the REAL Objective (hybrid) on one energy family"""
     f = energy_quadratic if kind == 'quadratic' else energy_cubic
 
@@ -287,6 +299,11 @@ def make_ws_harness(index, kind, use_default_index=False):
         mod = px.load_module('optimism/WarmStart.py')
         mod.np = NPX
         a, B0, B2, c, x, pold, pnew = _draw_ws_inputs(ex, kind)
+        if unit_family:
+            # one member of the family (A = I, B0 = B2 = I): only the state and the parameters stay symbolic, so that a counterexample in
+            # terms of the SIZE of the right-hand side is within the solver's reach
+            dt_ = object if ex.symbolic else float
+            a, B0, B2 = onp.array([1.0, 0.0, 1.0], dtype=dt_), onp.eye(N).astype(dt_), onp.eye(N).astype(dt_)
         t_old, t_new = ex.real('t_old'), ex.real('t_new')
         if kind == 'cubic':
             app = (a, B0, B2, c)
@@ -306,12 +323,20 @@ def make_ws_harness(index, kind, use_default_index=False):
         seen = {}
 
         if ex.symbolic:
-            def cg_stub(Lop, b, x0=None, M=None, callback=None, **kw):
-                # contract of scipy.sparse.linalg.cg: returns dx with L dx = b (exactly), exit code 0; one call per run
+            def cg_stub(Lop, b, x0=None, M=None, callback=None, maxiter=None, **kw):
+                # contract of scipy.sparse.linalg.cg, one call per run.  'exact': dx with L dx = b.  'tolerance' (scipy's documented
+                # stopping rule, as a function of the keyword arguments the source passes): |b - L dx| <= max(rtol |b|, atol)
                 dx = ex.vec('dx', N)
-                for cnd in zeq(Lop.matvec(dx), b):
-                    ex.assume(cnd)
-                seen.update(Lop=Lop, b=b, M=M, dx=dx)
+                Ldx = Lop.matvec(dx)
+                bb = NP.dot(b, b)
+                thr2, rtol, atol = cg_threshold_sq(kw, bb)
+                if contract == 'exact':
+                    for cnd in zeq(Ldx, b):
+                        ex.assume(cnd)
+                else:
+                    res = b - Ldx
+                    ex.assume(NP.dot(res, res) <= thr2)
+                seen.update(Lop=Lop, b=b, M=M, dx=dx, kw=dict(kw), thr2=thr2, rtol=rtol, atol=atol, bb=bb, x0=x0)
                 return dx, 0
             mod.cg = cg_stub
             mod.LinearOperator = LinOpStub
@@ -319,7 +344,9 @@ def make_ws_harness(index, kind, use_default_index=False):
             real_cg, real_lo = mod.cg, mod.LinearOperator
 
             def cg_spy(Lop, b, **kw):
-                seen.update(Lop=Lop, b=onp.asarray(b, dtype=float), M=kw.get('M'))
+                bf = onp.asarray(b, dtype=float)
+                thr2, rtol, atol = cg_threshold_sq({k_: (float(v_) if not isinstance(v_, str) and v_ is not None and k_ in ('rtol', 'tol', 'atol') else v_) for k_, v_ in kw.items()}, float(bf @ bf))
+                seen.update(Lop=Lop, b=bf, M=kw.get('M'), kw=dict(kw), thr2=thr2, rtol=rtol, atol=atol, bb=float(bf @ bf), x0=kw.get('x0'))
                 return real_cg(Lop, b, **kw)
             mod.cg = cg_spy
         x_in = x.copy()
@@ -339,13 +366,26 @@ def make_ws_harness(index, kind, use_default_index=False):
             ex.goal('operator_is_hessian_at_old_state', Eq(U(onp.asarray(seen['Lop'].matvec(w), dtype=object)), U(NP.dot(H, w))),
                     info='operator handed to cg, applied to an arbitrary vector')
             ex.goal('preconditioner_is_the_objectives', Eq(U(onp.asarray(seen['M'].matvec(w), dtype=object)), U(obj.apply_precond(w))))
+            # the CALL: the tolerance handed to cg must make its stopping rule |r| <= tol_rel |b| with tol_rel <= 1e-5 whatever |b| is
+            ex.goal('solve_tolerances_are_nonnegative', Holds([U(seen['rtol'] >= 0) if ex.symbolic else bool(seen['rtol'] >= 0), U(seen['atol'] >= 0) if ex.symbolic else bool(seen['atol'] >= 0)]))
+            ex.goal('solve_stops_at_relative_residual_1e-5_or_tighter', Le(U(seen['thr2']), U(DOC_RTOL * DOC_RTOL * seen['bb']), scale=(1e-10 * seen['bb'] if not ex.symbolic else 1e-10)),
+                    info='cg keywords %r: threshold max(rtol |b|, atol)^2 vs (1e-5 |b|)^2' % ({k_: (v_ if not px.is_sym(v_) else '<sym>') for k_, v_ in seen['kw'].items() if k_ in ('rtol', 'tol', 'atol')},))
+            ex.goal('solve_starts_from_the_zero_guess', Holds(seen['x0'] is None))
         else:
             # the routine returned without a linear solve: only right when there is nothing to predict
             ex.goal('no_linear_solve_only_when_the_gradient_change_vanishes', Eq(U(rhs), [0.0] * N, scale=sc_rhs),
                     info='returned %r without solving although -(dg/dp)(p_new - p_old) != 0' % (dx if not ex.symbolic else 'an increment',))
         dxa = onp.asarray(dx, dtype=object if ex.symbolic else float)
         ex.goal('increment_has_the_shape_of_x', Holds(onp.shape(dxa) == onp.shape(x)))
-        ex.goal('increment_is_the_linear_predictor', Eq(U(NP.dot(H, dxa)), U(rhs), scale=sc_rhs), info='H dx = -(dg/dp) dp for the returned increment')
+        rr = NP.dot(rhs, rhs)
+        if unit_family:
+            ex.late_assume(rr >= 1e10)       # slice: LARGE gradient changes (|b| >= 1e5), where an absolute/quadratic stopping threshold would accept the zero guess
+        if contract == 'exact':
+            ex.goal('increment_is_the_linear_predictor', Eq(U(NP.dot(H, dxa)), U(rhs), scale=sc_rhs), info='H dx = -(dg/dp) dp for the returned increment')
+        else:
+            defect = NP.dot(H, dxa) - rhs
+            ex.goal('increment_is_the_linear_predictor_to_the_solve_tolerance', Le(U(NP.dot(defect, defect)), U(DOC_RTOL * DOC_RTOL * rr), scale=(1e-10 if ex.symbolic else 1e-10 * float(rr))),
+                    info='|H dx + (dg/dp) dp|^2 <= (1e-5 |(dg/dp) dp|)^2 for EVERY increment scipy\'s stopping rule admits with the tolerances of the call')
         ex.goal('objective_parameters_untouched', Holds(obj.p is p_old))
         ex.goal('start_point_untouched', Eq(U(x), U(x_in)))
         if kind == 'quadratic':
@@ -356,8 +396,13 @@ def make_ws_harness(index, kind, use_default_index=False):
             ex.goal('old_state_is_an_equilibrium', Eq(U(onp.asarray(g_code_old, dtype=object)), [0.0] * N, scale=sc))
             p_upd = O.param_index_update(p_old, index, p_new[index])
             g_new = obj.grad_x(x + dxa, p_upd)
-            ex.goal('lands_on_the_new_solution', Eq(U(onp.asarray(g_new, dtype=object)), [0.0] * N, scale=sc),
-                    info='grad f(x_old + dx; p_new) for an equilibrium x_old of a quadratic energy')
+            if contract == 'exact':
+                ex.goal('lands_on_the_new_solution', Eq(U(onp.asarray(g_new, dtype=object)), [0.0] * N, scale=sc),
+                        info='grad f(x_old + dx; p_new) for an equilibrium x_old of a quadratic energy')
+            else:
+                gn = onp.asarray(g_new, dtype=object if ex.symbolic else float)
+                ex.goal('lands_on_the_new_solution_to_the_solve_tolerance', Le(U(NP.dot(gn, gn)), U(DOC_RTOL * DOC_RTOL * rr), scale=(1e-10 if ex.symbolic else 1e-10 * float(rr))),
+                        info='|grad f(x_old + dx; p_new)|^2 <= (1e-5 |gradient change|)^2')
     return fn
 
 
@@ -387,7 +432,7 @@ def make_ws_bad_index_harness(index):
     return fn
 
 
-WS_GOALS = ['rhs_is_minus_dgdp_times_parameter_change', 'operator_is_hessian_at_old_state', 'preconditioner_is_the_objectives',
+WS_GOALS = ['rhs_is_minus_dgdp_times_parameter_change', 'operator_is_hessian_at_old_state', 'preconditioner_is_the_objectives', 'solve_stops_at_relative_residual_1e-5_or_tighter',
             'increment_is_the_linear_predictor', 'objective_parameters_untouched', 'start_point_untouched']
 
 
@@ -397,7 +442,8 @@ def o1(h):
     optimism.Objective.Objective whose jitted closures (jac_xp_vec, jac_xp2_vec, hess_vec, grad_x) are evaluated by JX:
     for index 0 and 2 the right-hand side is -(dg/dp_index)(p_new - p_old), the operator is the Hessian at (x_old, p_old),
     hence H dx = -(dg/dp)(p_new-p_old); on the quadratic family grad f(x_old + dx; p_new) = 0 for every equilibrium x_old;
-    indices 1, 3, 4, 5 raise"""
+    with scipy's documented stopping rule instead (any dx with |b - L dx| <= max(rtol |b|, atol) for the tolerances of the call)
+    the increment is the linear predictor to relative accuracy 1e-5, whatever |b| is; indices 1, 3, 4, 5 raise"""
     O = _objmod()
     h.encoded('optimism.WarmStart:warm_start_increment (real source under PX)', 'optimism.WarmStart:warm_start_increment_jax_safe (real source under PX)', O.Objective.__init__, O.Objective.jacobian_p_vec, O.Objective.jacobian_p2_vec,
               O.Objective.hessian_vec, O.Objective.apply_precond, O.param_index_update,
@@ -405,7 +451,9 @@ def o1(h):
     h.bounds('n=2 unknowns, p0 in R^2, p1 in R^1, p2 in R^2, time scalar: all symbolic, old and new values differ in EVERY slot; '
              'quadratic family x.A x/2 - x.B0 p0 - x.B2 p2 - x.q (A sym 2x2, B0 2x2, B2 2x2 symbolic; q such that x_old is an equilibrium at p_old) and a cubic family '
              '(+ c0 (x0^3+x1^3) + c1 x0^2 x1, coupling -(1+c2 x1) x.B0 p0 - x.B2[:,0] p2_0^2 - x.B2[:,1] p2_1); Hessian at the old state SPD; index in 0..5')
-    h.assume_note('stub: scipy.sparse.linalg.cg returns dx with L dx = b exactly and exit code 0 (accuracy of scipy cg is outside the claim); LinearOperator = (shape, matvec) record',
+    h.assume_note('stub: scipy.sparse.linalg.cg by contract, exit code 0; LinearOperator = (shape, matvec) record. ws[...] runs: dx with L dx = b exactly; ws_tol[...] runs: ANY dx with '
+                  '|b - L dx| <= max(rtol |b|, atol), rtol/atol being the keyword arguments of the call (scipy defaults 1e-5 / 0 when absent; `tol` read as the legacy name of rtol); '
+                  'every run also checks the call itself: max(rtol |b|, atol) <= 1e-5 |b| (the relative tolerance the source asks for by passing none) and no initial guess',
                   'stub: SparseCholesky (sksparse absent) replaced by the identity preconditioner on the objective',
                   'hybrid: the objective is the real Objective class; its jitted closures are evaluated through their jaxprs by JX on the proxy arrays (replay: the real jitted closures, real scipy cg)',
                   'oracle: gradient/Hessian/parameter Jacobians of the two families derived by hand in the harness')
@@ -417,6 +465,14 @@ def o1(h):
             px.run_px(h, 'ws[index=%d,%s]' % (idx, kind), make_ws_harness(idx, kind), cap=40, div_mode='goal', sqrt_mode='goal', expect_goals=goals)
     px.run_px(h, 'ws[default index,quadratic]', make_ws_harness(0, 'quadratic', use_default_index=True), cap=40, div_mode='goal', sqrt_mode='goal',
               expect_goals=WS_GOALS)
+    # scipy's documented stopping rule instead of the exact solve: every increment it admits, with the tolerances the source passes
+    tol_goals = [g for g in WS_GOALS if g != 'increment_is_the_linear_predictor'] + ['increment_is_the_linear_predictor_to_the_solve_tolerance']
+    for idx, kind, dflt in ((0, 'quadratic', False), (2, 'cubic', False), (0, 'quadratic', True)):
+        px.run_px(h, 'ws_tol[%s,%s]' % ('default index' if dflt else 'index=%d' % idx, kind), make_ws_harness(idx, kind, use_default_index=dflt, contract='tolerance'), cap=40, order=('nlsat', 'core'),
+                  div_mode='goal', sqrt_mode='goal', expect_goals=tol_goals + (['lands_on_the_new_solution_to_the_solve_tolerance'] if kind == 'quadratic' else []))
+    for idx in (0, 2):
+        px.run_px(h, 'ws_tol[index=%d,quadratic,A=B=I,|b|>=1e5]' % idx, make_ws_harness(idx, 'quadratic', contract='tolerance', unit_family=True), cap=40, order=('nlsat', 'core'),
+                  div_mode='goal', sqrt_mode='goal', expect_goals=tol_goals + ['lands_on_the_new_solution_to_the_solve_tolerance'])
     for kind in ('quadratic', 'cubic'):
         goals = WS_GOALS + (['lands_on_the_new_solution', 'old_state_is_an_equilibrium'] if kind == 'quadratic' else [])
         px.run_px(h, 'ws_jax_safe[%s]' % kind, make_ws_harness(0, kind, use_default_index='jax_safe'), cap=40, div_mode='goal', sqrt_mode='goal', expect_goals=goals)
@@ -558,7 +614,8 @@ def make_step_driver_harness(kind, useWarmStart, updatePrecond, precondBeforeWar
             ex.goal('warm_start_called_once_with_this_objective', Holds(len(seen.get('ws_calls', [])) == 1 and seen.get('ws_obj') is obj))
             ex.goal('warm_start_sees_old_parameters', Holds(seen.get('ws_p_at_call') == 'P_OLD' and seen.get('ws_pnew') is pNew))
             ex.goal('warm_start_in_the_bc_slot', Holds(seen.get('ws_extra') in (((), {}), ((0,), {}), ((), {'index': 0}))))
-            ex.goal('warm_start_from_scaled_start', Eq(U(seen['ws_x']), U(start0)))
+            if 'ws_x' in seen:
+                ex.goal('warm_start_from_scaled_start', Eq(U(seen['ws_x']), U(start0)))
             start = start0 + dx
         else:
             ex.goal('no_warm_start', Holds(not seen.get('ws_calls')))
